@@ -299,6 +299,15 @@ func genCompileWLKinds(t *rapid.T, maxFiles int, kinds []int) CompileWL {
 			if k := rapid.IntRange(0, 7).Draw(t, "numOpt"); k < len(numericOptionLines) {
 				msg = append(msg, numericOptionLines[k])
 			}
+			if s.syntax != "proto3" && rapid.IntRange(0, 2).Draw(t, "rangeOpt") == 0 {
+				// one extensions statement with several ranges sharing one option
+				// list (a standard option before a custom one, or the other way round)
+				if rapid.IntRange(0, 1).Draw(t, "rangeOptOrder") == 0 {
+					msg = append(msg, fmt.Sprintf("  extensions 200 to 209, 300 to 309, 400 [verification = UNVERIFIED, (o.xlabel) = \"r%d\"];", i))
+				} else {
+					msg = append(msg, fmt.Sprintf("  extensions 200 to 209, 300 to 309 [(o.xlabel) = \"r%d\", verification = UNVERIFIED];", i))
+				}
+			}
 			if rapid.IntRange(0, 2).Draw(t, "oneofOpt") == 0 {
 				msg = append(msg, fmt.Sprintf("  oneof choice {\n    option (o.otag) = \"one%d\";\n    int32 c1 = %d;\n    string c2 = %d;\n  }", i, fieldNo+40, fieldNo+41))
 			}
@@ -393,6 +402,7 @@ func genCompileWLKinds(t *rapid.T, maxFiles int, kinds []int) CompileWL {
 				"extend google.protobuf.MessageOptions {\n  optional string tag = 50001;\n  optional float ratio = 50003;\n  optional double dval = 50004;\n  optional sint32 sval = 50005;\n}\n" +
 				"extend google.protobuf.FileOptions {\n  optional int32 ftag = 50002;\n}\n" +
 				"extend google.protobuf.OneofOptions {\n  optional string otag = 50010;\n}\n" +
+				"extend google.protobuf.ExtensionRangeOptions {\n  optional string xlabel = 50030;\n}\n" +
 				"message Cfg {\n  optional int32 v = 1;\n  extensions 100 to 199;\n}\n" +
 				"extend google.protobuf.MessageOptions {\n  optional Cfg cfg = 50020;\n}\n",
 		}
